@@ -539,6 +539,47 @@ func (s *racState) Write(b []byte) (int, error) { s.out = append(s.out, b...); r
 func (s *racState) Width() (int, bool)          { return s.wid, s.hasW }
 func (s *racState) Precision() (int, bool)      { return s.prec, s.hasP }
 func (s *racState) Flag(c int) bool             { return strings.IndexByte(s.flags, byte(c)) >= 0 }
+// racGrammar builds a grammatical finite numeric string from a random description and returns both.
+func racGrammar(rng__ *rand.Rand) (text string, neg, plus bool, z, c *big.Int, dot bool, a *big.Int, hase bool, ech, esg, ez, x, e *big.Int) {
+	neg = rng__.Intn(3) == 0
+	plus = !neg && rng__.Intn(4) == 0
+	nz := rng__.Intn(4)
+	c = racBig(racCoeffs[rng__.Intn(len(racCoeffs))])
+	digits := strings.Repeat("0", nz) + c.Text(10)
+	dot = rng__.Intn(2) == 0
+	na := rng__.Intn(len(digits) + 1)
+	hase = rng__.Intn(2) == 0
+	letter := []byte{'E', 'e'}[rng__.Intn(2)]
+	sg := []int64{0, '+', '-'}[rng__.Intn(3)]
+	nez := rng__.Intn(3)
+	xv := []int64{0, 1, 2, 5, 7, 10, 38, 100, 2000, 99999, 100000, 100001}[rng__.Intn(12)]
+	if neg {
+		text = "-"
+	} else if plus {
+		text = "+"
+	}
+	frac := 0
+	if dot {
+		text += digits[:na] + "." + digits[na:]
+		frac = len(digits) - na
+	} else {
+		text += digits
+	}
+	ev := int64(0)
+	if hase {
+		text += string(letter)
+		if sg != 0 {
+			text += string(rune(sg))
+		}
+		text += strings.Repeat("0", nez) + strconv.FormatInt(xv, 10)
+		ev = xv
+		if sg == '-' {
+			ev = -xv
+		}
+	}
+	return text, neg, plus, big.NewInt(int64(nz)), c, dot, big.NewInt(int64(na)), hase, big.NewInt(int64(letter)), big.NewInt(sg), big.NewInt(int64(nez)), big.NewInt(xv), big.NewInt(ev - int64(frac))
+}
+
 // racLog: what has been written to the state (old: before the call under test - the harness starts with an empty log)
 func racLog(s fmt.State, old bool) []byte {
 	if old {
@@ -838,11 +879,14 @@ func (W *World) racTest(fn *ssa.Function, fc *FuncContract) (string, error) {
 			e.params[params[i].name] = true
 		}
 		if ghostText != "" {
-			// the ghost variables of a parser contract: the decimal whose text was handed in
-			for _, g := range []string{"gC", "gE", "gech", "gform"} {
+			// the ghost variables of a parser contract: the decimal whose text was handed in, and the description of a
+			// grammatical text (sign, leading zeros, point position, exponent part)
+			for _, g := range []string{"gC", "gE", "gech", "gform", "gz", "ga", "gesg", "gez", "gX"} {
 				e.vars[g] = gval{s: g + "__", k: gInt}
 			}
-			e.vars["gneg"] = gval{s: "gneg__", k: gBool}
+			for _, g := range []string{"gneg", "gplus", "gdot", "ghase"} {
+				e.vars[g] = gval{s: g + "__", k: gBool}
+			}
 		}
 		return e
 	}
@@ -884,7 +928,11 @@ func (W *World) racTest(fn *ssa.Function, fc *FuncContract) (string, error) {
 		sb.WriteString("\t\tif rng__.Intn(8) != 0 { " + ghostText + " }\n")
 		sb.WriteString("\t\tgneg__, gC__, gE__, gform__ := gd__.Negative, gd__.Coeff.MathBigInt(), big.NewInt(int64(gd__.Exponent)), big.NewInt(int64(gd__.Form))\n")
 		sb.WriteString("\t\tgech__ := big.NewInt(int64(gverb__))\n\t\tif gverb__ == 'G' { gech__ = big.NewInt(69) } else if gverb__ == 'g' { gech__ = big.NewInt(101) }\n")
-		sb.WriteString("\t\t_, _, _, _, _ = gneg__, gC__, gE__, gform__, gech__\n")
+		// every other trial: a grammatical numeric string built from its description (leading zeros, a point anywhere,
+		// an exponent part with optional sign and leading zeros, either letter, an optional '+')
+		sb.WriteString("\t\tgplus__, gdot__, ghase__ := false, false, false\n\t\tgz__, ga__, gesg__, gez__, gX__ := big.NewInt(0), big.NewInt(0), big.NewInt(0), big.NewInt(0), big.NewInt(0)\n")
+		sb.WriteString("\t\tif rng__.Intn(2) == 0 {\n\t\t\tgtext__, gneg__, gplus__, gz__, gC__, gdot__, ga__, ghase__, gech__, gesg__, gez__, gX__, gE__ = racGrammar(rng__)\n\t\t\tgform__ = big.NewInt(0)\n\t\t\t" + ghostText + "\n\t\t}\n")
+		sb.WriteString("\t\t_, _, _, _, _, _, _, _, _, _, _, _, _ = gneg__, gC__, gE__, gform__, gech__, gplus__, gdot__, ghase__, gz__, ga__, gesg__, gez__, gX__\n")
 	}
 	sb.WriteString("\t\tif only__ >= 0 && trial__ != only__ { continue }\n")
 	// non-nil defaults
